@@ -58,6 +58,12 @@ def _restore_class_attributes(fx):
 
 
 def make_grammar(ctx: Ctx, cfg):
+    if cfg["fixture"] == "family":  # generated hierarchy: fresh classes on every path
+        from vf.fixtures import family
+
+        fx = ctx.concrete(family.get, cfg["index"])
+        kw = {"expansion_depthing": True} if cfg.get("expansion_depthing") else {}
+        return fx, ctx.concrete(lambda: fx.grammar(**kw))
     fx = fixture(cfg["fixture"])
     fn = getattr(fx, cfg.get("grammar_fn", "grammar"))
     kw = {"expansion_depthing": True} if cfg.get("expansion_depthing") else {}
@@ -93,7 +99,15 @@ def make_rep(cfg, g, r):
 
 
 def registered_classes(fx) -> set:
-    return set(getattr(fx, "CLASSES"))
+    out = set(getattr(fx, "CLASSES"))
+    # classes named only as field types are registered through their declaration
+    from vf.oracles.grammar import Analysis
+
+    try:
+        out |= {c for c in Analysis(list(out), fx.START).classes if isinstance(c, type)}
+    except Exception:
+        pass
+    return out
 
 
 def fuel_genes(ctx: Ctx, cfg, genotype):
